@@ -19,6 +19,8 @@ Violations(line) ==
   \cup R("broken-reader", o.brokenReader = "accepted")
      \* a signature verifies the blob it was made for and no other, whatever metadata is asked for
   \cup R("wrong-blob", o.wrongBlob = "accepted")
+     \* (C01) ... nor the same blob under a content media type that is not the signed one (a near miss: letter case, parameters)
+  \cup R("wrong-media-type", o.wrongCMT \notin {"n/a", "refused"})
 
 Init == l = 1
 Next == /\ l <= Len(Trace)
